@@ -2,6 +2,7 @@ package props
 
 import (
 	"fmt"
+	"go/token"
 	"go/types"
 	"strings"
 
@@ -82,21 +83,60 @@ func (h H) whoMayCompact(rule string) {
 func phiLeaves(fi *core.FuncInfo, v ssa.Value) []string {
 	m := map[string]bool{}
 	seen := map[ssa.Value]bool{}
-	var rec func(x ssa.Value)
-	rec = func(x ssa.Value) {
-		if seen[x] {
+	P := fi.P
+	// ctx: the call through which a new helper (core.IsNew) was entered, so
+	// that its parameters can be traced back to the arguments
+	type frame struct {
+		call *ssa.Call
+		up   *frame
+	}
+	var rec func(x ssa.Value, fr *frame, depth int)
+	rec = func(x ssa.Value, fr *frame, depth int) {
+		if seen[x] || depth > 8 {
 			return
 		}
 		seen[x] = true
-		if p, ok := x.(*ssa.Phi); ok {
-			for _, e := range p.Edges {
-				rec(e)
+		switch y := x.(type) {
+		case *ssa.Phi:
+			for _, e := range y.Edges {
+				rec(e, fr, depth+1)
 			}
 			return
+		case *ssa.Extract:
+			if c, ok := y.Tuple.(*ssa.Call); ok {
+				if callee := c.Common().StaticCallee(); callee != nil && P.IsNew(callee) && callee.Blocks != nil {
+					for _, r := range core.Returns(callee) {
+						if y.Index < len(r.Results) {
+							rec(r.Results[y.Index], &frame{c, fr}, depth+1)
+						}
+					}
+					return
+				}
+			}
+		case *ssa.Call:
+			if callee := y.Common().StaticCallee(); callee != nil && P.IsNew(callee) && callee.Blocks != nil && callee.Signature.Results().Len() == 1 {
+				for _, r := range core.Returns(callee) {
+					rec(r.Results[0], &frame{y, fr}, depth+1)
+				}
+				return
+			}
+		case *ssa.Parameter:
+			if fr != nil && fr.call.Common().StaticCallee() == y.Parent() {
+				for i, prm := range y.Parent().Params {
+					if prm == y && i < len(fr.call.Common().Args) {
+						rec(fr.call.Common().Args[i], fr.up, depth+1)
+						return
+					}
+				}
+			}
 		}
-		m[fi.Sym(x).String()] = true
+		owner := fi
+		if in, ok := x.(ssa.Instruction); ok && in.Parent() != nil && in.Parent() != fi.Fn {
+			owner = P.Info(in.Parent())
+		}
+		m[owner.Sym(x).String()] = true
 	}
-	rec(v)
+	rec(v, nil, 0)
 	var out []string
 	for k := range m {
 		out = append(out, k)
@@ -562,7 +602,7 @@ func (h H) labelCoherence(rule string) {
 	for k, c := range h.P.CallsTo(dts, nw) {
 		site := h.site(dts, nw, k)
 		i, tm := h.argStr(c, 1), h.argStr(c, 2)
-		h.C.Check(rule+" index-term-from-fsm", site, strings.HasSuffix(i, ".index") && strings.HasSuffix(tm, ".term") && strings.HasPrefix(i, "local:") && i[:len(i)-6] == tm[:len(tm)-5], h.pos(c), "snapshot index/term must both come from the state machine's response; found ("+i+", "+tm+")")
+		h.C.Check(rule+" index-term-from-fsm", site, strings.HasSuffix(i, ".index") && strings.HasSuffix(tm, ".term") && (strings.HasPrefix(i, "local:") || strings.HasPrefix(i, "assert[fsmSnapResp](")) && i[:len(i)-6] == tm[:len(tm)-5], h.pos(c), "snapshot index/term must both come from the state machine's response; found ("+i+", "+tm+")")
 	}
 	// ... and the membership must be read on the raft goroutine in the activation that enqueues the request
 	req := h.P.Named("raft:fsmSnapReq")
@@ -679,4 +719,133 @@ func (h H) goReachable() map[*ssa.Function]string {
 		}
 	}
 	return out
+}
+
+// snapshotOrder (C09.7 / C10.10): findSnapshots hands out the stored snapshot
+// indexes newest first — openSnapshots takes element 0 as the latest snapshot
+// and applyRetain deletes from the tail. The order must be the numeric one of
+// the parsed indexes: a sort of the file names disagrees as soon as two
+// indexes differ in their number of digits.
+func (h H) snapshotOrder(rule string) {
+	fn := h.fn("raft:findSnapshots")
+	fi := h.P.Info(fn)
+	n := 0
+	for k, ret := range core.Returns(fn) {
+		if len(ret.Results) != 2 || !isNilConst(retOperand(ret, 1)) {
+			continue
+		}
+		n++
+		v := retOperand(ret, 0)
+		want := fi.Sym(v).String()
+		sorted := false
+		core.Instrs(fn, func(in ssa.Instruction) {
+			c, ok := in.(*ssa.Call)
+			if !ok || c.Common().StaticCallee() == nil || !core.Dominates(in, ret) {
+				return
+			}
+			args := c.Common().Args
+			switch c.Common().StaticCallee().String() {
+			case "sort.Sort":
+				// sort.Sort(decrUint64Slice(v))
+				x := args[0]
+				if mi, ok := x.(*ssa.MakeInterface); ok {
+					x = mi.X
+				}
+				nt, isNamed := x.Type().(*types.Named)
+				if ct, ok := x.(*ssa.ChangeType); ok && isNamed && nt.Obj().Name() == "decrUint64Slice" && fi.Sym(ct.X).String() == want {
+					sorted = true
+				}
+			case "sort.Slice":
+				// sort.Slice(v, func(i, j) bool { return v[i] > v[j] })
+				x := args[0]
+				if mi, ok := x.(*ssa.MakeInterface); ok {
+					x = mi.X
+				}
+				if fi.Sym(x).String() != want {
+					return
+				}
+				var cl *ssa.Function
+				switch f := args[1].(type) {
+				case *ssa.MakeClosure:
+					cl, _ = f.Fn.(*ssa.Function)
+				case *ssa.Function:
+					cl = f
+				}
+				if cl == nil {
+					return
+				}
+				good := true
+				m := 0
+				for _, r := range core.Returns(cl) {
+					m++
+					bo, ok := r.Results[0].(*ssa.BinOp)
+					if !ok {
+						good = false
+						continue
+					}
+					l, rr := h.P.Info(cl).Sym(bo.X).String(), h.P.Info(cl).Sym(bo.Y).String()
+					ix := func(s string, k int) bool {
+						return strings.HasSuffix(s, fmt.Sprintf("[$%d]", k)) || strings.HasSuffix(s, fmt.Sprintf("[λ$%d]", k))
+					}
+					desc := (bo.Op == token.GTR && ix(l, 0) && ix(rr, 1)) || (bo.Op == token.LSS && ix(l, 1) && ix(rr, 0))
+					if !desc || !isUnsignedInt(bo.X.Type()) {
+						good = false
+					}
+				}
+				if good && m > 0 {
+					sorted = true
+				}
+			}
+		})
+		h.C.Check(rule+" newest-first", fmt.Sprintf("findSnapshots success-return#%d", k+1), sorted, h.pos(ret), "the snapshot indexes must be handed out in descending numeric order (sort of the parsed uint64 values); openSnapshots takes the first as the latest snapshot and applyRetain deletes from the end")
+		// what is sorted are parsed numbers
+		okElems := true
+		core.Instrs(fn, func(in ssa.Instruction) {
+			c, ok := in.(*ssa.Call)
+			if !ok {
+				return
+			}
+			if b, isB := c.Common().Value.(*ssa.Builtin); isB && b.Name() == "append" && len(c.Common().Args) == 2 {
+				// append(list, x): the variadic element travels in a one-element array
+				good := false
+				if sl, ok := c.Common().Args[1].(*ssa.Slice); ok {
+					if al, ok := sl.X.(*ssa.Alloc); ok {
+						for _, r := range *al.Referrers() {
+							ia, ok := r.(*ssa.IndexAddr)
+							if !ok {
+								continue
+							}
+							for _, rr := range *ia.Referrers() {
+								if st, ok := rr.(*ssa.Store); ok && strings.Contains(fi.Sym(st.Val).String(), "strconv.ParseUint(") {
+									good = true
+								}
+							}
+						}
+					}
+				}
+				if !good {
+					okElems = false
+				}
+			}
+		})
+		h.C.Check(rule+" parsed-indexes", fmt.Sprintf("findSnapshots success-return#%d", k+1), okElems, h.pos(ret), "the list must consist of the indexes parsed from the file names with strconv.ParseUint")
+	}
+	h.C.Floor(rule+" (success returns of findSnapshots)", n, 1)
+	// its consumers: the latest snapshot is element 0
+	os := h.fn("raft:openSnapshots")
+	ofi := h.P.Info(os)
+	okLatest := false
+	core.Instrs(os, func(in ssa.Instruction) {
+		if st, ok := in.(*ssa.Store); ok && strings.HasSuffix(ofi.Sym(st.Addr).String(), ".index") {
+			if strings.HasSuffix(ofi.Sym(st.Val).String(), "findSnapshots($0)#0[0]") || strings.Contains(ofi.Sym(st.Val).String(), "[0]") {
+				okLatest = true
+			}
+		}
+	})
+	h.C.Check(rule+" latest-is-first", "openSnapshots", okLatest, h.fpos(os), "openSnapshots must take the first listed snapshot as the latest")
+}
+
+func isUnsignedInt(t types.Type) bool {
+	b, ok := t.Underlying().(*types.Basic)
+	return ok && b.Info()&types.IsUnsigned != 0
 }
